@@ -458,6 +458,27 @@ func Open(path string) (DiskStore, error) {
 	return zzOrigOpen(path)
 }
 `},
+	"github.com/semafind/semadb/distance.GetFloatDistanceFn": {"distance", `package distance
+
+import "github.com/semafind/semadb/zzsimrt"
+
+// generated by simgo: guards every float distance computation (C18: a vector whose
+// length differs from the index dimension must never reach a distance kernel; the
+// vectorised kernels read memory without bounds checks).
+func GetFloatDistanceFn(name string) (FloatDistFunc, error) {
+	fn, err := zzOrigGetFloatDistanceFn(name)
+	if err != nil || !zzsimrt.Active() {
+		return fn, err
+	}
+	return func(x, y []float32) float32 {
+		if len(x) != len(y) {
+			zzsimrt.Count("probe:distance-length-mismatch")
+			return 0
+		}
+		return fn(x, y)
+	}, nil
+}
+`},
 	"github.com/semafind/semadb/cluster/mrpc.DialHTTP": {"cluster/mrpc", `package mrpc
 
 import "net/rpc"
@@ -580,7 +601,7 @@ func main() {
 			fmt.Fprintf(os.Stderr, "simgo: seam %s not found exactly once (%d)\n", key, stats["interposed:"+key])
 			os.Exit(2)
 		}
-		if err := os.WriteFile(filepath.Join(root, gen[0], "zz_sim_seam.go"), []byte(gen[1]), 0644); err != nil {
+		if err := os.WriteFile(filepath.Join(root, gen[0], "zz_sim_seam_"+key[strings.LastIndex(key, ".")+1:]+".go"), []byte(gen[1]), 0644); err != nil {
 			panic(err)
 		}
 	}
